@@ -394,11 +394,41 @@ def rule_gst(S):
                         out[tgt].append((g.qname, short_loc(n), v_))
         return out
 
+    def thread_writes():
+        out = {}
+        roots = [facts.get(t) for t in thread_entries if facts.get(t) is not None]
+        for g in R.reachable_funcs(facts, roots).values():
+            for n in g.all_nodes():
+                tgt = None
+                if n['k'] == 'CXXMemberCallExpr' and n.get('cn') in R.ATOMIC_WRITE and (n.get('mcls') or '').startswith('std::'):
+                    tgt = R.global_ref(g, call_recv(g, n))
+                elif n['k'] == 'CXXOperatorCallExpr' and n.get('cn') in ('operator=', 'operator++', 'operator--', 'operator+=', 'operator-='):
+                    a = [g.node(x) for x in n.get('args', [])]
+                    tgt = R.global_ref(g, a[0]) if a else None
+                if tgt in atomics:
+                    out.setdefault(tgt, (g.qname, short_loc(n)))
+        return out
+
     fin = [f for f in facts.by_qname(Y + 'fin') if not f.cls]
     ini = [f for f in facts.by_qname(Y + 'init') if not f.cls]
     if not fin or not ini:
         raise AnalysisBroken('R-GST: yakushima::init / yakushima::fin not found')
     wf, wi = writes(fin), writes(ini)
+    # all-or-none: the atomics the background threads maintain (global epoch, GC epoch) are derived from one another;
+    # init() may leave all of them running on from the previous cycle, or reset all of them - not a part
+    wt = thread_writes()
+    both = sorted(q for q in wt if q in wi)
+    if both:
+        for q in sorted(wt):
+            S.ob('R-GST', Y + 'init', 'thread-maintained state: ' + q, q in wi,
+                 'reset together with the other thread-maintained atomics' if q in wi else
+                 'init() resets %s but not %s, which the background threads derive from it: after the first cycle the '
+                 'two disagree until the threads have caught up (e.g. a stale GC epoch above a rewound global epoch frees '
+                 'what open sessions still use)' % (', '.join(both), q), loc=wt[q][1])
+    else:
+        S.ob('R-GST', Y + 'init', 'thread-maintained state (%s)' % ', '.join(sorted(wt)) , True,
+             'init() resets none of it: every cycle continues from the previous values', loc=ini[0].loc)
+    S.require('R-GST', 'process-wide atomics maintained by the background threads', len(wt), 2)
     S.count('R-GST: process-wide atomics', len(atomics))
     S.require('R-GST', 'process-wide atomics written on the fin() path', len(wf), 2)
     for q in sorted(wf):
